@@ -1026,4 +1026,144 @@ theorem allocChips_complete {inp : Input}
     simp only [allocChips, h1, h2]
     exact ⟨_, rfl⟩
 
+/-! ### the placers' budget -/
+
+/-- what the placers subtract from a chip's resource for the reservations `rs`
+(`resources_after_reservation`: only the magnitudes) -/
+def reservedSize (rs : List Slice) : Int := (rs.map fun r => r.stop - r.start).sum
+
+/-- reservation `r` lies inside `[0, cap]` (documented requirement of
+`ReserveResourceConstraint`) -/
+def Inside (cap : Int) (r : Slice) : Prop := 0 ≤ r.start ∧ r.start ≤ r.stop ∧ r.stop ≤ cap
+
+instance (cap r) : Decidable (Inside cap r) := by unfold Inside; infer_instance
+
+theorem window_ge_budget (cap : Int) (rs : List Slice)
+    (h : ∀ r ∈ rs, Inside cap r ∧ AtEnd cap r) :
+    ∀ lo0 hi0 : Int, 0 ≤ lo0 → hi0 ≤ cap →
+      hi0 - lo0 - reservedSize rs ≤
+        rs.foldl (fun hi r => if r.start < r.stop ∧ ¬ r.start ≤ 0 then min hi r.start else hi) hi0
+        - rs.foldl (fun lo r => if r.start < r.stop ∧ r.start ≤ 0 then max lo r.stop else lo) lo0 := by
+  induction rs with
+  | nil => intro lo0 hi0 _ _; simp [reservedSize]
+  | cons r rs ih =>
+    intro lo0 hi0 hlo hhi
+    obtain ⟨⟨i1, i2, i3⟩, he⟩ := h r List.mem_cons_self
+    have ih' := ih (fun r hr => h r (List.mem_cons_of_mem _ hr))
+    have hsz : reservedSize (r :: rs) = (r.stop - r.start) + reservedSize rs := by
+      simp [reservedSize]
+    rw [hsz]
+    simp only [List.foldl_cons]
+    unfold AtEnd at he
+    by_cases c1 : r.start < r.stop ∧ r.start ≤ 0
+    · have c2 : ¬ (r.start < r.stop ∧ ¬ r.start ≤ 0) := by omega
+      rw [if_pos c1, if_neg c2]
+      have := ih' (max lo0 r.stop) hi0 (by omega) hhi
+      omega
+    · by_cases c2 : r.start < r.stop ∧ ¬ r.start ≤ 0
+      · rw [if_neg c1, if_pos c2]
+        have := ih' lo0 (min hi0 r.start) hlo (by omega)
+        omega
+      · rw [if_neg c1, if_neg c2]
+        have := ih' lo0 hi0 hlo hhi
+        omega
+
+theorem window_ge_budget' (cap : Int) (rs : List Slice)
+    (h : ∀ r ∈ rs, Inside cap r ∧ AtEnd cap r) :
+    cap - reservedSize rs ≤ windowHi cap rs - windowLo rs := by
+  have := window_ge_budget cap rs h 0 cap (by omega) (by omega)
+  unfold windowHi windowLo
+  omega
+
+/-! ### one range per request -/
+
+theorem nodup_flatMap_of {α β : Type} {l : List α} {f : α → List β}
+    (h1 : ∀ x ∈ l, (f x).Nodup)
+    (h2 : l.Pairwise (fun a b => ∀ y ∈ f a, ∀ z ∈ f b, y ≠ z)) : (l.flatMap f).Nodup := by
+  induction l with
+  | nil => simp
+  | cons a l ih =>
+    rw [List.pairwise_cons] at h2
+    rw [List.flatMap_cons, List.nodup_append]
+    refine ⟨h1 a List.mem_cons_self, ih (fun x hx => h1 x (List.mem_cons_of_mem _ hx)) h2.2, ?_⟩
+    intro y hy z hz
+    obtain ⟨b, hb, hzb⟩ := List.mem_flatMap.1 hz
+    exact h2.1 b hb y hy z hzb
+
+theorem allocChips_keys {inp : Input}
+    (halign : ∀ res, 1 ≤ alignment inp.constraints res)
+    (hdem : ∀ q ∈ inp.vr, ∀ rd ∈ q.2, 0 ≤ rd.2) :
+    ∀ (chips : List Chip) (out : List (Vertex × List Entry)),
+      allocChips inp chips = .ok out → out.map (·.1) = chips.flatMap (chipVertices inp) := by
+  intro chips
+  induction chips with
+  | nil =>
+    intro out h
+    simp only [allocChips] at h
+    injection h with h; subst h; rfl
+  | cons xy rest ih =>
+    intro out h
+    simp only [allocChips] at h
+    split at h
+    · simp at h
+    · rename_i a ha
+      split at h
+      · simp at h
+      · rename_i b hb
+        injection h with h; subst h
+        have ⟨_, ma, _⟩ := allocVertices_seg halign hdem _ _ _ ha
+        rw [List.map_append, ma, ih b hb, List.flatMap_cons]
+
+theorem nodup_chipVertices {inp : Input} (wf : WellFormed inp) (xy : Chip) :
+    (chipVertices inp xy).Nodup :=
+  List.Nodup.sublist (List.Sublist.map _ List.filter_sublist) wf.placementsNodup
+
+theorem nodup_allVertices {inp : Input} (wf : WellFormed inp) {chips : List Chip}
+    (hnd : chips.Nodup) : (chips.flatMap (chipVertices inp)).Nodup := by
+  apply nodup_flatMap_of (fun xy _ => nodup_chipVertices wf xy)
+  apply List.Pairwise.imp _ hnd
+  intro xy1 xy2 hne v hv w hw hvw
+  subst hvw
+  have h1 := (mem_chipVertices _ _ _).1 hv
+  have h2 := (mem_chipVertices _ _ _).1 hw
+  have := eq_of_key_eq wf.placementsNodup h1 h2 rfl
+  injection this with _ h3
+  exact hne h3
+
+/-- **One range each.** No (vertex, resource) pair receives two ranges. -/
+theorem unique_of_chipsOk {inp : Input} {out : List (Vertex × List Entry)} (wf : WellFormed inp)
+    (ck : ChipsOk inp (chipOrder inp) out)
+    (hk : out.map (·.1) = (chipOrder inp).flatMap (chipVertices inp)) :
+    ((flat (strip out)).map fun t => (t.1, t.2.1)).Nodup := by
+  have hkeys : (out.map (·.1)).Nodup := by rw [hk]; exact nodup_allVertices wf (nodup_dedup _)
+  have : (flat (strip out)).map (fun t => (t.1, t.2.1)) =
+      out.flatMap (fun o => o.2.map (fun e => (o.1, e.res))) := by
+    rw [flat_eq, strip_eq, List.map_flatMap, List.flatMap_map]
+    simp [List.map_map, Function.comp_def]
+  rw [this]
+  apply nodup_flatMap_of
+  · intro o ho
+    obtain ⟨xy, _, _, rs, hl, hkey⟩ := ck.bwd o ho
+    have hres : o.2.map (·.res) = rs.map (·.1) := by
+      have := congrArg (List.map (fun k : Vertex × Chip × Res × Int => k.2.2.1)) hkey
+      simpa [List.map_map, Function.comp_def, Entry.key] using this
+    have hnd : (o.2.map (·.res)).Nodup := by
+      rw [hres]; exact wf.resNodup _ (mem_of_lookup hl)
+    have : o.2.map (fun e => (o.1, e.res)) = (o.2.map (·.res)).map (fun r => (o.1, r)) := by
+      simp [List.map_map, Function.comp_def]
+    rw [this]
+    rw [List.Nodup, List.pairwise_map]
+    apply List.Pairwise.imp _ hnd
+    intro a b hab h
+    injection h with _ h
+    exact hab h
+  · rw [List.Nodup, List.pairwise_map] at hkeys
+    apply List.Pairwise.imp _ hkeys
+    intro o1 o2 hne y hy z hz hyz
+    obtain ⟨e1, _, rfl⟩ := List.mem_map.1 hy
+    obtain ⟨e2, _, h2⟩ := List.mem_map.1 hz
+    rw [← hyz] at h2
+    injection h2 with h2 _
+    exact hne h2.symm
+
 end Rig.C05
